@@ -35,6 +35,10 @@ def build_tasks(eng, obs, level=0):
 
 def solve_all(eng, obs=None, timeout_ms=20000, cvc5_all=False, seed=0):
     obs = eng.obligations if obs is None else obs
+    pre = [o for o in obs if (o.meta or {}).get("decided")]
+    obs = [o for o in obs if not (o.meta or {}).get("decided")]
+    for o in pre:
+        o.smt_full = o.smt_core = None
     t0 = time.time()
     res = solve.discharge_obligations(eng, obs, level=0, timeout_ms=timeout_ms, seed=seed, cvc5=("all" if cvc5_all else "unknown"))
     for ob, r in zip(obs, res):
